@@ -1386,10 +1386,10 @@ func (g *Gtp5g) CreateBAR(lSeid uint64, req *ie.IE) error {
 			if err != nil {
 				return err
 			}
-			// TODO: convert time.Duration -> ?
+			// the IE carries the delay in multiples of 50 ms (TS 29.244 8.2.28)
 			attrs = append(attrs, nl.Attr{
 				Type:  gtp5gnl.BAR_DOWNLINK_DATA_NOTIFICATION_DELAY,
-				Value: nl.AttrU8(v),
+				Value: nl.AttrU8(v / (50 * time.Millisecond)),
 			})
 		case ie.SuggestedBufferingPacketsCount:
 			v, err := i.SuggestedBufferingPacketsCount()
@@ -1428,10 +1428,10 @@ func (g *Gtp5g) UpdateBAR(lSeid uint64, req *ie.IE) error {
 			if err != nil {
 				return err
 			}
-			// TODO: convert time.Duration -> ?
+			// the IE carries the delay in multiples of 50 ms (TS 29.244 8.2.28)
 			attrs = append(attrs, nl.Attr{
 				Type:  gtp5gnl.BAR_DOWNLINK_DATA_NOTIFICATION_DELAY,
-				Value: nl.AttrU8(v),
+				Value: nl.AttrU8(v / (50 * time.Millisecond)),
 			})
 		case ie.SuggestedBufferingPacketsCount:
 			v, err := i.SuggestedBufferingPacketsCount()
